@@ -986,6 +986,16 @@ def doc_class(line, i, mode):
 def c08_check(case):
     line, mode = case['line'], case['mode']
     pat = _lexer.TRIPLE_RE if mode == 'triples' else _lexer.PENMAN_RE
+    # a str is lexed line by line; only LF, CRLF and CR end a line
+    pieces = re.split(r'\r\n|\r|\n', line)
+    want = []
+    for k, piece in enumerate(pieces, 1):
+        want += [(t.type, t.text, k, t.offset) for t in _lexer.lex([piece], pattern=pat)]
+    got = [(t.type, t.text, t.lineno, t.offset) for t in _lexer.lex(line, pattern=pat)]
+    if got != want:
+        return f'lexing the str differs from lexing its lines (split at LF/CRLF/CR only): {got!r} vs {want!r}'
+    if len(pieces) > 1:
+        return None
     toks = list(_lexer.lex([line], pattern=pat))
     pos = 0
     for t in toks:
@@ -1536,6 +1546,15 @@ def c15_check(case):
         occurs = any(g._top in (t[0], t[2]) for t in d.triples)
         if (d._top is None) == occurs:
             return 'explicit top handling in difference'
+    # the non-in-place operators are the in-place ones on a copy (metadata aside)
+    g1 = copy.deepcopy(g)
+    g1 -= h
+    g2 = copy.deepcopy(g)
+    g2 |= h
+    for name_, a, b in (('-', d, g1), ('|', u, g2)):
+        if (a._top, a.top, a.triples, sorted(a.variables(), key=repr)) != (b._top, b.top, b.triples, sorted(b.variables(), key=repr)) \
+                or [(k, [repr(e) for e in v]) for k, v in a.epidata.items()] != [(k, [repr(e) for e in v]) for k, v in b.epidata.items()]:
+            return f'g {name_} h differs from the in-place form on a copy: top {a._top!r}/{a.top!r} vs {b._top!r}/{b.top!r}'
     if set((u - h).triples) - set(g.triples):
         return '(g|h)-h not a subset of g'
     if set((g | g).triples) != set(g.triples):
